@@ -10,6 +10,7 @@ PROP_FILE = "C20.v"
 KINDS = {  # shard prefix -> (jsonl file, label used in violation keys)
     "lcases": ("lcases.jsonl", "limiter"),
     "mcases": ("mcases.jsonl", "mapping"),
+    "wcases": ("wcases.jsonl", "wrap"),
     "ccases": ("ccases.jsonl", "conn"),
     "ecases": ("ecases.jsonl", "e2e"),
 }
@@ -118,9 +119,9 @@ def run(ctx):
     ob_src = common.strip_coq_comments(open(os.path.join(common.VERIF, "coq", GROUP, "Obligations.v")).read())
     table_obs = re.findall(r"\bLemma\s+(ob_[A-Za-z0-9_']+)", ob_src)
     tables_ok = "Obligations.v" not in failed
-    evals = sum(int(meta.get(k, 0)) for k in ("limiter_cases", "mapping_cases", "conn_cases", "e2e_cases"))
+    evals = sum(int(meta.get(k, 0)) for k in ("limiter_cases", "mapping_cases", "wrap_cases", "conn_cases", "e2e_cases"))
     nontriv = int(meta.get("distribution", {}).get("limiter_cases_with_wait", 0)) + int(meta.get("conn_cases", 0)) + \
-        int(meta.get("mapping_cases", 0)) + int(meta.get("e2e_cases", 0))
+        int(meta.get("mapping_cases", 0)) + int(meta.get("wrap_cases", 0)) + int(meta.get("e2e_cases", 0))
     coverage = {
         "obligations": n_ob + len(table_obs),
         "discharged": len(info["discharged"]) + (len(table_obs) if tables_ok else 0),
@@ -142,7 +143,8 @@ def run(ctx):
         "distinct_nontrivial": nontriv,
         "rule": "limiter: random ReserveN sequences (1..40 ops, 12 fixed + random bandwidths, sizes around the burst, time steps "
                 "around the refill time incl. backwards steps) on the limiter built by newRateLimiter; mapping: all pairs of 10 limits "
-                "(exhaustive over that set); conn: Read/Write x 8 sizes x 3 errors x 4 limiter configurations through NewListener+Accept "
+                "(exhaustive over that set); wrap: all pairs of 11 CLI spellings (off, OFF, 0, 1, 1B, 1k, 1.5Ki, 1M, 4Mi, 300M, 1G) through "
+                "SizeSuffix.Set and forwarder.Listener.Listen (net.go); conn: Read/Write x 8 sizes x 3 errors x 4 limiter configurations through NewListener+Accept "
                 "on a scripted conn; e2e: uploads/downloads of burst + 2..3 R bytes through the real proxy listener, plain and CONNECT "
                 "tunnels, 1 and 3 connections, timing lower bounds only; time-boxed transfers (6.5 s window) with 24 connections sharing 64 KiB/s "
                 "and 8 sharing 2 KiB/s, and transfers in flight across a close of the proxy's listeners (bytes inside the window against "
